@@ -14,7 +14,13 @@ Persistence part
       public operations over a pool of operators and caller-owned arrays; they are executed against real cola
       with SHA-256 digests of every caller-owned array and of (dense, annotations, flatten leaves) of every live
       operator after every call; Trace_Persist.tla validates the recording (negative controls included).
-      Seeded longer random sequences go through the same validation."""
+      Seeded longer random sequences go through the same validation.
+  (5) layout sweep (mode "sweep" of MC_Persist): for every path (products, solves / inverses through Triangular,
+      Cholesky, LU, Auto, CG, GMRES and the structured rules, matrix functions, decompositions, constructors) x side
+      (right / left product, plain argument) x value class, TLC enumerates the sequences of memory layouts (1-D,
+      column, C / Fortran order, transposed view, strided and reversed slices, read-only, float32) in which the SAME
+      value is handed over; the argument, every other layout and the operator are digested before / after every call
+      and Trace_Persist validates the frame condition and that the result does not depend on the layout."""
 import hashlib
 import json
 import os
@@ -58,6 +64,13 @@ ASSUMPTIONS = [
     "(LinearOperator.to documents them as unsupported), device is None",
     "MC_Persist has no mechanism model: TLC enumerates the well-typed sequences and validates recordings "
     "against the frame conditions; results of iterative routines are compared bitwise between repeated calls",
+    "layout sweep: operators are 4x4 float64 (operands float64, plus float32 classes), k = 3 columns; the layouts of one "
+    "value are separate arrays (own buffers), a view is digested together with the whole buffer it is a view of and "
+    "with its shape / strides / flags; results of one (path, side, value) are identified up to a tolerance (1e-6 "
+    "relative, 1e-3 for the float32 classes; exception class otherwise), so 'the result does not depend on the layout' "
+    "means equal within that tolerance; every case is one chain executed on one live operator (after a mutation the "
+    "chain goes on with the mutated arrays); quick replays, per case, sequences of 2 layouts in which every layout "
+    "comes first exactly once (thorough: 3)",
 ]
 
 
@@ -901,11 +914,15 @@ PERSIST_POOL = [{"n": 3, "spd": True}, {"n": 3, "spd": True}, {"n": 4, "spd": Fa
 DIMS = (2, 3, 4, 6, 9, 12)
 
 
-def render_persist_model(max_len, sample_mod=1, sample_res=0):
+def render_persist_model(max_len, sample_mod=1, sample_res=0, sweep_len=2, sweep_all=False, sweep_res=0):
     acts = [{"name": a, "req": r, "out": o} for a, r, o in PERSIST_ACTS]
+    paths = [{"name": nm, "role": role} for nm, role in SWEEP_PATHS]
     return ("---- MODULE PersistModel ----\n\\* generated by harness/props/c18.py\nEXTENDS Integers, Sequences\n"
             f"PM_Pool == {tla.to_tla(PERSIST_POOL)}\nPM_Acts == {tla.to_tla(acts)}\nPM_MaxLen == {max_len}\n"
-            f"PM_SampleMod == {sample_mod}\nPM_SampleRes == {sample_res}\n====\n")
+            f"PM_SampleMod == {sample_mod}\nPM_SampleRes == {sample_res}\n"
+            f"PM_Paths == {tla.to_tla(paths)}\nPM_Roles == {tla.to_tla(SWEEP_ROLES)}\n"
+            f"PM_Classes == {tla.to_tla(SWEEP_CLASSES)}\nPM_SweepLen == {sweep_len}\n"
+            f"PM_SweepAll == {tla.to_tla(bool(sweep_all))}\nPM_SweepRes == {sweep_res}\n====\n")
 
 
 def _enabled(req, d, pool=PERSIST_POOL):
@@ -1284,7 +1301,7 @@ def persist_records(nodes):
         ch = kids.get(p, [])
         recs.append({"p": pos[p[:-1]] if p != () else 0, "fc": pos[ch[0]] if ch else 1, "nc": len(ch),
                      "sig": iid(("sig", sig)) if sig else 0, "res": iid(("res", r)),
-                     "ow": iid(("ow", tuple(ow))),
+                     "ow": iid(("ow", tuple(ow))), "ab": 0, "aa": 0,
                      "ops": [{"d": iid(("d", t[0])), "a": iid(("a", t[1])), "l": iid(("l", t[2]))} for t in trip]})
     return recs, order
 
@@ -1315,15 +1332,437 @@ def _path_str(p):
     return " ; ".join(f"{_act_name(k)}(#{k[1]})" for k in p)
 
 
+# =================================================================================================
+#                       PERSISTENCE: layout sweep of caller-owned arguments
+# =================================================================================================
+SW_N, SW_K = 4, 3
+# value class -> the memory layouts in which ONE value of that class is handed over
+SWEEP_CLASSES = {
+    "vec": ["v1", "v1s", "v1n", "v1ro"],                        # 1-D: contiguous, strided slice, reversed view, read-only
+    "col": ["C", "S", "T", "Cro"],                              # (n,1) right / (1,n) left
+    "mat": ["C", "F", "T", "S", "R", "N", "Cro", "Fro"],        # (n,k) right / (k,n) left
+    "vec32": ["v1", "v1s"],                                     # float32 operands of float64 operators
+    "mat32": ["C", "F"],
+    "ivec": ["v1", "v1s", "v1n", "v1ro"],                       # integer index arrays
+    "sq": ["C", "F", "T", "S", "N", "Cro", "Fro"],              # (n,n) arrays operators are constructed from
+}
+SWEEP_ROLES = {
+    "rhs": {"sides": ["R", "L"], "classes": ["vec", "col", "mat", "vec32", "mat32"]},
+    "start": {"sides": ["A"], "classes": ["vec", "vec32"]},
+    "guess": {"sides": ["A"], "classes": ["vec"]},
+    "guessm": {"sides": ["A"], "classes": ["mat"]},
+    "index": {"sides": ["A"], "classes": ["ivec"]},
+    "ctor": {"sides": ["A"], "classes": ["sq"]},
+    "ctorv": {"sides": ["A"], "classes": ["vec"]},
+}
+SWEEP_PATHS = [
+    # products
+    ("dense", "rhs"), ("triangular", "rhs"), ("diagonal", "rhs"), ("identity", "rhs"), ("scalarmul", "rhs"),
+    ("permutation", "rhs"), ("kronecker", "rhs"), ("kronsum", "rhs"), ("sum_I_A", "rhs"), ("sum_A_I", "rhs"),
+    ("product", "rhs"), ("transpose", "rhs"), ("adjoint", "rhs"), ("blockdiag", "rhs"), ("tridiagonal", "rhs"),
+    ("sliced", "rhs"), ("psd_dense", "rhs"), ("smul", "rhs"),
+    # solves / inverses: Triangular, Cholesky, LU, Auto, CG, GMRES, structured rules, least squares
+    ("inv_tri_lower", "rhs"), ("inv_tri_upper", "rhs"), ("solve_cholesky", "rhs"), ("solve_lu", "rhs"),
+    ("solve_auto_psd", "rhs"), ("solve_auto_gen", "rhs"), ("solve_cg", "rhs"), ("solve_gmres", "rhs"),
+    ("inv_diagonal", "rhs"), ("inv_identity", "rhs"), ("inv_scalarmul", "rhs"), ("inv_permutation", "rhs"),
+    ("inv_kronecker", "rhs"), ("inv_blockdiag", "rhs"), ("inv_product", "rhs"), ("inv_tridiagonal", "rhs"),
+    ("inv_sum", "rhs"), ("inv_unitary", "rhs"), ("pinv", "rhs"),
+    # matrix functions
+    ("exp_dense", "rhs"), ("exp_lanczos", "rhs"), ("exp_arnoldi", "rhs"), ("sqrt_psd", "rhs"), ("log_psd", "rhs"),
+    ("pow2", "rhs"),
+    # decompositions / matrix functions: start vectors;  iterative solves: initial guesses
+    ("lanczos", "start"), ("arnoldi", "start"), ("exp_lanczos_sv", "start"), ("exp_arnoldi_sv", "start"),
+    ("cg_x0", "guess"), ("gmres_x0", "guess"), ("cg_x0_block", "guessm"), ("gmres_x0_block", "guessm"),
+    # index arrays
+    ("getitem_rows", "index"), ("getitem_cols", "index"), ("permutation_ctor", "index"),
+    # arrays operators are constructed from, followed by the factorisation / decomposition that consumes them
+    ("dense_ctor", "ctor"), ("triangular_inv_ctor", "ctor"), ("cholesky_ctor", "ctor"), ("lu_ctor", "ctor"),
+    ("eig_ctor", "ctor"), ("logdet_ctor", "ctor"), ("diagonal_ctor", "ctorv"),
+]
+
+
+def _sw_mats():
+    """Fresh copies of the fixed arrays the swept operators are built from (caller-owned as well)."""
+    np = _np()
+    n = SW_N
+    rng = np.random.RandomState(1805)
+    M = rng.randint(-3, 4, size=(n, n)).astype(np.float64)
+    Q, _ = np.linalg.qr(M + 5 * np.eye(n))
+    return {"S": M @ M.T + n * np.eye(n), "G": M + 5 * np.eye(n), "Lw": np.tril(M) + 5 * np.eye(n),
+            "Up": np.triu(M) + 5 * np.eye(n), "d": np.array([2., 1., 3., -2.]), "Q": Q,
+            "a2": np.array([[3., 1.], [0., 2.]]), "c2": np.array([[2., -1.], [1., 3.]]),
+            "tl": np.array([1., 2., -1.]), "td": np.array([4., 5., 6., 4.]), "tu": np.array([-1., 1., 2.]),
+            "perm": np.array([2, 0, 3, 1]), "b0": np.array([1., -2., 3., 1.]),
+            "B0": rng.randint(-3, 4, size=(n, SW_K)).astype(np.float64), "cols": np.array([0, 1, 3])}
+
+
+def sweep_paths():
+    """name -> dict(make(m) -> operator or None, R / L / A (A, arg, m) -> result).  m = _sw_mats() of the case."""
+    np = _np()
+    import cola
+    from cola import ops
+    from cola.linalg.decompositions.arnoldi import arnoldi
+    from cola.linalg.decompositions.decompositions import LU, Arnoldi, Cholesky, Lanczos
+    from cola.linalg.decompositions.lanczos import lanczos
+    from cola.linalg.inverse.cg import CG
+    from cola.linalg.inverse.gmres import GMRES
+    n = SW_N
+    f64 = np.float64
+    I = lambda: ops.Identity((n, n), f64)                       # noqa: E731,E741
+    psd = lambda m: cola.PSD(ops.Dense(m["S"]))                 # noqa: E731
+    gen = lambda m: ops.Dense(m["G"])                           # noqa: E731
+    cg = lambda **kw: CG(tol=1e-10, max_iters=60, **kw)         # noqa: E731
+    gm = lambda **kw: GMRES(tol=1e-10, max_iters=n, **kw)       # noqa: E731
+    P = {}
+
+    def op(name, make):
+        P[name] = {"make": make, "R": lambda A, b, m: A @ b, "L": lambda A, b, m: b @ A}
+
+    def solve(name, base, alg):
+        P[name] = {"make": base, "R": lambda A, b, m: cola.solve(A, b, alg()), "L": lambda A, b, m: b @ cola.linalg.inv(A, alg())}
+
+    op("dense", gen)
+    op("triangular", lambda m: ops.Triangular(m["Lw"], lower=True))
+    op("diagonal", lambda m: ops.Diagonal(m["d"]))
+    op("identity", lambda m: I())
+    op("scalarmul", lambda m: ops.ScalarMul(2.5, (n, n), dtype=f64))
+    op("permutation", lambda m: ops.Permutation(m["perm"], dtype=f64))
+    op("kronecker", lambda m: ops.Kronecker(ops.Dense(m["a2"]), ops.Dense(m["c2"])))
+    op("kronsum", lambda m: ops.KronSum(ops.Dense(m["a2"]), ops.Dense(m["c2"])))
+    op("sum_I_A", lambda m: I() + gen(m))
+    op("sum_A_I", lambda m: gen(m) + I())
+    op("product", lambda m: gen(m) @ ops.Diagonal(m["d"]))
+    op("transpose", lambda m: gen(m).T)
+    op("adjoint", lambda m: gen(m).H)
+    op("blockdiag", lambda m: ops.BlockDiag(ops.Dense(m["a2"]), ops.Dense(m["c2"])))
+    op("tridiagonal", lambda m: ops.Tridiagonal(m["tl"], m["td"], m["tu"]))
+    op("sliced", lambda m: ops.Dense(np.pad(m["G"], ((0, 1), (0, 1))))[:n, :n])
+    op("psd_dense", psd)
+    op("smul", lambda m: 2.0 * gen(m))
+    op("inv_tri_lower", lambda m: cola.linalg.inv(ops.Triangular(m["Lw"], lower=True)))
+    op("inv_tri_upper", lambda m: cola.linalg.inv(ops.Triangular(m["Up"], lower=False)))
+    solve("solve_cholesky", psd, Cholesky)
+    solve("solve_lu", gen, LU)
+    P["solve_auto_psd"] = {"make": psd, "R": lambda A, b, m: cola.solve(A, b), "L": lambda A, b, m: b @ cola.linalg.inv(A)}
+    P["solve_auto_gen"] = {"make": gen, "R": lambda A, b, m: cola.solve(A, b), "L": lambda A, b, m: b @ cola.linalg.inv(A)}
+    solve("solve_cg", psd, cg)
+    solve("solve_gmres", gen, gm)
+    op("inv_diagonal", lambda m: cola.linalg.inv(ops.Diagonal(m["d"])))
+    op("inv_identity", lambda m: cola.linalg.inv(I()))
+    op("inv_scalarmul", lambda m: cola.linalg.inv(ops.ScalarMul(2.5, (n, n), dtype=f64)))
+    op("inv_permutation", lambda m: cola.linalg.inv(ops.Permutation(m["perm"], dtype=f64)))
+    op("inv_kronecker", lambda m: cola.linalg.inv(ops.Kronecker(ops.Dense(m["a2"]), ops.Dense(m["c2"]))))
+    op("inv_blockdiag", lambda m: cola.linalg.inv(ops.BlockDiag(ops.Dense(m["a2"]), ops.Dense(m["c2"]))))
+    op("inv_product", lambda m: cola.linalg.inv(gen(m) @ ops.Diagonal(m["d"])))
+    op("inv_tridiagonal", lambda m: cola.linalg.inv(ops.Tridiagonal(m["tl"], m["td"], m["tu"])))
+    op("inv_sum", lambda m: cola.linalg.inv(I() + gen(m)))
+    op("inv_unitary", lambda m: cola.linalg.inv(cola.Unitary(ops.Dense(m["Q"]))))
+    op("pinv", lambda m: cola.linalg.pinv(gen(m)))
+    op("exp_dense", lambda m: cola.linalg.exp(ops.Dense(m["G"] / 4)))
+    op("exp_lanczos", lambda m: cola.linalg.exp(cola.PSD(ops.Dense(m["S"] / 8)), Lanczos(max_iters=n)))
+    op("exp_arnoldi", lambda m: cola.linalg.exp(ops.Dense(m["G"] / 4), Arnoldi(max_iters=n)))
+    op("sqrt_psd", lambda m: cola.linalg.sqrt(psd(m)))
+    op("log_psd", lambda m: cola.linalg.log(psd(m)))
+    op("pow2", lambda m: cola.linalg.pow(gen(m), 2))
+    P["lanczos"] = {"make": psd, "A": lambda A, v, m: lanczos(A, start_vector=v, max_iters=n)[:2]}
+    P["arnoldi"] = {"make": gen, "A": lambda A, v, m: arnoldi(A, start_vector=v, max_iters=n)[:2]}
+    P["exp_lanczos_sv"] = {"make": lambda m: cola.PSD(ops.Dense(m["S"] / 8)),
+                           "A": lambda A, v, m: cola.linalg.exp(A, Lanczos(start_vector=v, max_iters=n)) @ m["b0"]}
+    P["exp_arnoldi_sv"] = {"make": lambda m: ops.Dense(m["G"] / 4),
+                           "A": lambda A, v, m: cola.linalg.exp(A, Arnoldi(start_vector=v, max_iters=n)) @ m["b0"]}
+    P["cg_x0"] = {"make": psd, "A": lambda A, v, m: cola.solve(A, m["b0"], cg(x0=v))}
+    P["gmres_x0"] = {"make": gen, "A": lambda A, v, m: cola.solve(A, m["b0"], gm(x0=v))}
+    P["cg_x0_block"] = {"make": psd, "A": lambda A, v, m: cola.solve(A, m["B0"], cg(x0=v))}
+    P["gmres_x0_block"] = {"make": gen, "A": lambda A, v, m: cola.solve(A, m["B0"], gm(x0=v))}
+    P["getitem_rows"] = {"make": gen, "A": lambda A, v, m: A[v, m["cols"]].to_dense()}
+    P["getitem_cols"] = {"make": gen, "A": lambda A, v, m: A[m["cols"], v].to_dense()}
+    P["permutation_ctor"] = {"A": lambda A, v, m: ops.Permutation(v, dtype=f64) @ m["b0"], "value": "perm"}
+    P["dense_ctor"] = {"A": lambda A, v, m: (ops.Dense(v) @ m["b0"], m["b0"] @ ops.Dense(v)), "value": "G"}
+    P["triangular_inv_ctor"] = {"A": lambda A, v, m: cola.linalg.inv(ops.Triangular(v, lower=True)) @ m["b0"], "value": "Lw"}
+    P["cholesky_ctor"] = {"A": lambda A, v, m: cola.solve(cola.PSD(ops.Dense(v)), m["b0"], Cholesky()), "value": "S"}
+    P["lu_ctor"] = {"A": lambda A, v, m: cola.solve(ops.Dense(v), m["b0"], LU()), "value": "G"}
+    P["eig_ctor"] = {"A": lambda A, v, m: cola.linalg.eig(cola.SelfAdjoint(ops.Dense(v)), k=n)[0], "value": "S"}
+    P["logdet_ctor"] = {"A": lambda A, v, m: cola.linalg.logdet(cola.PSD(ops.Dense(v))), "value": "S"}
+    P["diagonal_ctor"] = {"A": lambda A, v, m: cola.linalg.inv(ops.Diagonal(v)) @ m["b0"], "value": "d"}
+    if sorted(P) != sorted(nm for nm, _ in SWEEP_PATHS):
+        raise RuntimeError("SWEEP_PATHS and sweep_paths() are out of sync")
+    return P
+
+
+def sweep_value(pname, role, side, cls, m, P):
+    """The logical value of the swept argument (what every layout of the class holds)."""
+    np = _np()
+    n, k = SW_N, SW_K
+    rng = np.random.RandomState(1806)
+    vec = rng.randint(-3, 4, size=(n, )).astype(np.float64)
+    mat = rng.randint(-3, 4, size=(n, k)).astype(np.float64)
+    if role == "rhs":
+        v = {"vec": vec, "vec32": vec, "col": mat[:, :1], "mat": mat, "mat32": mat}[cls]
+        v = v.T if (side == "L" and v.ndim == 2) else v
+        return v.astype(np.float32) if cls.endswith("32") else v
+    if role == "start":
+        v = np.array([1., 2., 3., 1.])
+        return v.astype(np.float32) if cls.endswith("32") else v
+    if role == "guess":
+        return np.array([1., 0., -1., 2.])
+    if role == "guessm":
+        return rng.randint(-2, 3, size=(n, k)).astype(np.float64)
+    if role == "index" and "value" not in P:
+        return np.array([0, 2, 3])
+    return np.array(m[P["value"]], copy=True)
+
+
+def make_layout(kind, vals):
+    """(array handed to the call, the buffer it is a view of or None)."""
+    np = _np()
+    v = np.array(vals, copy=True)
+    if kind in ("v1", "C"):
+        return np.ascontiguousarray(v), None
+    if kind in ("v1ro", "Cro", "Fro"):
+        a = np.asfortranarray(v) if kind == "Fro" else np.ascontiguousarray(v)
+        a.setflags(write=False)
+        return a, None
+    if kind == "F":
+        return np.asfortranarray(v), None
+    if kind == "v1s":
+        base = np.full(2 * len(v), 77, dtype=v.dtype)
+        base[::2] = v
+        return base[::2], base
+    if kind == "v1n":
+        rev = v[::-1].copy()
+        return rev[::-1], rev
+    if kind == "T":
+        bt = np.ascontiguousarray(v.T)
+        return bt.T, bt
+    if kind == "S":
+        base = np.full((v.shape[0], 2 * v.shape[1]), 77, dtype=v.dtype)
+        base[:, ::2] = v
+        return base[:, ::2], base
+    if kind == "R":
+        base = np.full((2 * v.shape[0], v.shape[1]), 77, dtype=v.dtype)
+        base[::2] = v
+        return base[::2], base
+    if kind == "N":
+        rev = v[::-1, ::-1].copy()
+        return rev[::-1, ::-1], rev
+    raise ValueError(kind)
+
+
+def _layout_digest(arr, base):
+    np = _np()
+    d = _hx(str(arr.dtype), arr.shape, arr.strides, arr.flags.writeable, arr.flags.c_contiguous, arr.flags.f_contiguous,
+            np.ascontiguousarray(arr).tobytes())
+    return d if base is None else _hx(d, base.shape, base.flags.writeable, np.ascontiguousarray(base).tobytes())
+
+
+def _sw_value(r):
+    """Result -> nested list of dense arrays (operators densified) or a string for anything else."""
+    np = _np()
+    if isinstance(r, (tuple, list)):
+        return [_sw_value(x) for x in r]
+    if _is_op(r):
+        return np.asarray(r.to_dense())
+    if isinstance(r, (np.ndarray, np.generic, int, float, complex)):
+        return np.asarray(r)
+    return repr(type(r))
+
+
+def _sw_close(a, b, tol):
+    np = _np()
+    if isinstance(a, list) or isinstance(b, list):
+        return isinstance(a, list) and isinstance(b, list) and len(a) == len(b) and all(_sw_close(x, y, tol) for x, y in zip(a, b))
+    if isinstance(a, str) or isinstance(b, str):
+        return a == b
+    if a.shape != b.shape or a.dtype != b.dtype:
+        return False
+    scale = float(np.max(np.abs(b))) if b.size and np.all(np.isfinite(b)) else 1.0
+    return bool(np.allclose(a, b, rtol=tol, atol=tol * max(1.0, scale), equal_nan=True))
+
+
+class SweepCase:
+    """One (path, side, value class): the operator, the value in every layout of the class, the fixed arrays."""
+    def __init__(self, pname, side, cls):
+        np = _np()
+        persist_pin()
+        self.pname, self.side, self.cls = pname, side, cls
+        self.role = dict(SWEEP_PATHS)[pname]
+        self.P = sweep_paths()[pname]
+        self.m = _sw_mats()
+        vals = sweep_value(pname, self.role, side, cls, self.m, self.P)
+        self.kinds = SWEEP_CLASSES[cls]
+        self.lay = {kd: make_layout(kd, vals) for kd in self.kinds}
+        self.fixed = sorted(self.m)
+        self.tol = 1e-3 if cls.endswith("32") else 1e-6
+        self.classes = []           # representatives of the result classes seen so far
+        with warnings.catch_warnings(), np.errstate(all="ignore"):
+            warnings.simplefilter("ignore")
+            self.A = self.P["make"](self.m) if "make" in self.P else None
+
+    def arg_digest(self, kind):
+        return _layout_digest(*self.lay[kind])
+
+    def owned(self):
+        return [self.arg_digest(kd) for kd in self.kinds] + [_arr_digest(self.m[k]) for k in self.fixed]
+
+    def owned_names(self):
+        return [f"{self.cls}:{kd}" for kd in self.kinds] + ["fixed:" + k for k in self.fixed]
+
+    def ops(self):
+        """[[dense, annotations, leaves before densifying, kind]] of the swept operator (none for constructor paths)."""
+        np = _np()
+        if self.A is None:
+            return []
+        l1 = _leaves_digest(self.A)
+        try:
+            with warnings.catch_warnings(), np.errstate(all="ignore"):
+                warnings.simplefilter("ignore")
+                d = _arr_digest(np.asarray(self.A.to_dense()))
+        except Exception as e:  # noqa: BLE001
+            d = "exc:" + type(e).__name__
+        ann = ",".join(sorted(a.__name__ for a in self.A.annotations))
+        return [[d, ann, l1, type(self.A).__name__.split("[")[0]]]
+
+    def call(self, kind):
+        """-> (result identity, argument digest before, after).  Results equal within tolerance share an identity."""
+        np = _np()
+        arr = self.lay[kind][0]
+        ab = self.arg_digest(kind)
+        try:
+            with warnings.catch_warnings(), np.errstate(all="ignore"):
+                warnings.simplefilter("ignore")
+                val = _sw_value(self.P[self.side](self.A, arr, self.m))
+        except Exception as e:  # noqa: BLE001
+            return "exc:" + type(e).__name__, ab, self.arg_digest(kind), f"{type(e).__name__}: {str(e)[:120]}"
+        aa = self.arg_digest(kind)
+        for i, rep in enumerate(self.classes):
+            if _sw_close(val, rep, self.tol):
+                return f"val{i}", ab, aa, ""
+        self.classes.append(val)
+        return f"val{len(self.classes) - 1}", ab, aa, ""
+
+
+def _sweep_task(task):
+    """task = (path, side, class, [segments of layout kinds]): the segments one after the other on one SweepCase.
+    Returns [(kind or None, res, ab, aa, owned digests, ops, note)] (first entry: the initial snapshot)."""
+    from .. import fastimport
+    fastimport.install()
+    from .. import build  # noqa: F401
+    pname, side, cls, segments = task
+    try:
+        c = SweepCase(pname, side, cls)
+    except Exception as e:  # noqa: BLE001   the swept operator cannot even be built: reported by the caller
+        return [(None, "ctor-exc:" + type(e).__name__ + ": " + str(e)[:120], "", "", [], [], "")]
+    out = [(None, "init", "", "", c.owned(), c.ops(), "")]
+    for seg in segments:
+        for kind in seg:
+            res, ab, aa, note = c.call(kind)
+            out.append((kind, res, ab, aa, c.owned(), c.ops(), note))
+    return out
+
+
+def sweep_execute(lines):
+    """lines: printed sweep behaviours [{sw: {p, s, c}, q: [kinds]}] -> [(case key, events)] (one chain per case)."""
+    groups = {}
+    for ln in lines:
+        groups.setdefault((ln["sw"]["p"], ln["sw"]["s"], ln["sw"]["c"]), []).append(tuple(ln["q"]))
+    tasks = [(p, sd, c, sorted(segs)) for (p, sd, c), segs in sorted(groups.items())]
+    res = common.pmap(_sweep_task, tasks, chunksize=8)
+    return list(zip([t[:3] for t in tasks], res))
+
+
+def sweep_records(chains, offset):
+    """Trace_Persist records of the sweep chains (numbered from offset + 1) and, per record, (case key, event index)."""
+    intern = {}
+
+    def iid(x):
+        return intern.setdefault(x, len(intern) + 1)
+
+    recs, where = [], []
+    for key, evs in chains:
+        first = offset + len(recs) + 1
+        for j, (kind, res, ab, aa, ow, trip, _) in enumerate(evs):
+            me = first + j
+            recs.append({"p": 0 if j == 0 else me - 1, "fc": me + 1 if j + 1 < len(evs) else 1, "nc": 1 if j + 1 < len(evs) else 0,
+                         "sig": 0 if j == 0 else iid(("sig", key)), "res": iid(("res", key, res)),
+                         "ow": iid(("ow", tuple(ow))), "ab": iid(("arg", ab)) if j else 0, "aa": iid(("arg", aa)) if j else 0,
+                         "ops": [{"d": iid(("d", t[0])), "a": iid(("a", t[1])), "l": iid(("l", t[2]))} for t in trip]})
+            where.append((key, j))
+    return recs, where
+
+
+def sweep_violations(chains, where, bad, offset, viol):
+    """Rejected sweep events -> violations, aggregated per (clause, path, side, class)."""
+    by_key = dict(chains)
+    agg = {}
+    for l, v in sorted(bad.items()):
+        if l <= offset:
+            continue
+        key, j = where[l - offset - 1]
+        pname, side, cls = key
+        evs = by_key[key]
+        kind, res, ab, aa, ow, trip, note = evs[j]
+        _, pres, _, _, pow_, ptrip, _ = evs[j - 1]
+        role = dict(SWEEP_PATHS)[pname]
+        opkind = trip[0][3] if trip else "none"
+        names = [f"{cls}:{kd}" for kd in SWEEP_CLASSES[cls]] + ["fixed:" + k for k in sorted(_sw_mats_names())]
+        found = []
+        if not v["arr"] or not v["argf"]:
+            changed = [names[i] for i, (a, b) in enumerate(zip(pow_, ow)) if a != b]
+            if ab != aa and f"{cls}:{kind}" not in changed:
+                changed.append(f"{cls}:{kind}")
+            found.append(("array_mutated", {"arrays": sorted(changed), "argument_mutated": ab != aa},
+                          f"caller-owned array(s) {sorted(changed)} changed (argument in layout {kind}"
+                          f"{': overwritten' if ab != aa else ''})"))
+        for flag, clause, idx, part in (("den", "operator_changed", 0, "dense"), ("lea", "operator_changed", 2, "leaves"),
+                                        ("ann", "annotations_changed", 1, "annotations")):
+            if not v[flag]:
+                found.append((clause, {"part": part, "changed_kinds": [opkind]}, f"{part} of the swept operator ({opkind}) changed"))
+        if not v["grow"]:
+            found.append(("operator_changed", {"part": "pool"}, "the swept operator disappeared"))
+        if not v["rep"]:
+            first = next(e for e in evs[1:] if e[0] is not None)
+            ro = kind.endswith("ro") and res.startswith("exc:") and not first[1].startswith("exc:")
+            again = any(e[0] == kind and e[1] != res for e in evs[1:j])
+            clause = "readonly_rejected" if ro else ("repeat_differs" if again else "layout_dependent_result")
+            found.append((clause, {"result": res.split(":")[0], "first_result": first[1]},
+                          f"result {res} {note} differs from the result {first[1]} of the same call with the argument in layout "
+                          f"{first[0]}" + (" (and from the earlier call with this very array)" if again else "")))
+        for clause, at, detail in found:
+            akey = (clause, pname, side, cls, json.dumps({k: v2 for k, v2 in at.items() if k != "arrays"}, sort_keys=True))
+            ent = agg.get(akey)
+            if ent is None:
+                agg[akey] = [1, j, dict(at, action="sweep:" + role, kind=opkind, path=pname, side=side, cls=cls, layouts=[kind]),
+                             detail, [e[0] for e in evs[1:j + 1]]]
+            else:
+                ent[0] += 1
+                if kind not in ent[2]["layouts"]:
+                    ent[2]["layouts"].append(kind)
+                if "arrays" in at:
+                    ent[2]["arrays"] = sorted(set(ent[2].get("arrays", [])) | set(at["arrays"]))
+    for (clause, pname, side, cls, _), (cnt, j, attrs, detail, seq) in sorted(agg.items()):
+        attrs["layouts"] = sorted(attrs["layouts"])
+        viol.append(Violation(PROP, clause, f"sweep {pname} side={side} {cls} layouts={attrs['layouts']}", attrs,
+                              f"{detail} [{cnt} recorded event(s) rejected by Trace_Persist]",
+                              replay={"kind": "sweep", "path": pname, "side": side, "cls": cls, "seq": seq}))
+
+
+def _sw_mats_names():
+    return ["S", "G", "Lw", "Up", "d", "Q", "a2", "c2", "tl", "td", "tu", "perm", "b0", "B0", "cols"]
+
+
 def persist_part(tier, wd, viol, cov):
     depth = 2 if tier == "quick" else 3
     sample_mod = 1 if tier == "quick" else 8
     mcr = tla.run_tlc("MC_Persist", "SPECIFICATION MCSpec\nINVARIANT Typed\nINVARIANT Emit\nPROPERTY Persistence\n"
-                      "PROPERTY MemoStable\n", wd,
-                      gen_files={"PersistModel.tla": render_persist_model(depth, sample_mod, common.seed() % sample_mod)})
+                      "PROPERTY MemoStable\nPROPERTY ArgumentsFrame\n", wd,
+                      gen_files={"PersistModel.tla": render_persist_model(depth, sample_mod, common.seed() % sample_mod,
+                                                                           sweep_len=depth, sweep_all=False,
+                                                                           sweep_res=common.seed())})
     if mcr.error or mcr.violated:
         raise tla.TLCError(f"MC_Persist failed: {mcr.error or mcr.violated}\n" + mcr.out[-2000:])
-    seqs = [tuple(tuple(a) for a in ln["h"]) for ln in mcr.json_lines()]
+    printed = mcr.json_lines()
+    seqs = [tuple(tuple(a) for a in ln["h"]) for ln in printed if "h" in ln]
+    sweep_lines = [ln for ln in printed if "sw" in ln]
     n_tlc = len(seqs)
     rnd = random_sequences(24 if tier == "quick" else 240, 10 if tier == "quick" else 14, common.seed() + 18)
     from .. import fastimport
@@ -1337,7 +1776,26 @@ def persist_part(tier, wd, viol, cov):
     if nodes[()][2:] != nodes_r[()][2:]:
         raise RuntimeError("initial snapshots differ between workers")
     recs, order = persist_records(nodes)
+    # ---- layout sweep of arguments: one chain per (path, side, value class), validated in the same TLC run
+    n_cases = sum(len(SWEEP_ROLES[role]["sides"]) * len(SWEEP_ROLES[role]["classes"]) for _, role in SWEEP_PATHS)
+    chains = sweep_execute(sweep_lines)
+    if len(chains) != n_cases:
+        raise RuntimeError(f"sweep: {len(chains)} of {n_cases} cases printed by MC_Persist")
+    for (pname, side, cls), evs in chains:
+        firsts = {seg["q"][0] for seg in sweep_lines if (seg["sw"]["p"], seg["sw"]["s"], seg["sw"]["c"]) == (pname, side, cls)}
+        if firsts != set(SWEEP_CLASSES[cls]):
+            raise RuntimeError(f"sweep {pname} {side} {cls}: layouts {sorted(set(SWEEP_CLASSES[cls]) - firsts)} never come first")
+        if evs[0][1] != "init":
+            viol.append(Violation(PROP, "operator_changed", f"sweep {pname}", {"action": "sweep:ctor", "path": pname, "part": "ctor"},
+                                  f"the swept operator cannot be constructed: {evs[0][1]}",
+                                  replay={"kind": "sweep", "path": pname, "side": side, "cls": cls, "seq": []}))
+    chains = [c for c in chains if c[1][0][1] == "init"]
+    srecs_sw, swhere = sweep_records(chains, len(recs))
+    n_base = len(recs)
+    recs = recs + srecs_sw
     tres, bad = persist_validate(wd, recs)
+    sweep_violations(chains, swhere, bad, n_base, viol)
+    bad = {l: v for l, v in bad.items() if l <= n_base}
     # ---- rejected events -> violations (which entry changed is read off the recording)
     agg = {}
     for l, v in sorted(bad.items()):
@@ -1400,11 +1858,30 @@ def persist_part(tier, wd, viol, cov):
     mut[i]["fc"], mut[i]["nc"] = len(mut) + 1, 1
     mut.append(extra_node)
     add_tree(mut, len(mut) - 1, "rep")
+    # layout sweep: a (real) chain with the argument digest after one call corrupted / with the result of the call on
+    # one layout corrupted (e.g. an exception on the read-only layout); the untouched chain must be accepted
+    k0 = next(k for k, r in enumerate(srecs_sw) if r["p"] == 0)
+    k1 = next(k for k in range(k0 + 1, len(srecs_sw) + 1) if k == len(srecs_sw) or srecs_sw[k]["p"] == 0)
+    chain = [dict(r) for r in srecs_sw[k0:k1]]
+    for r in chain:                      # renumber from 1
+        r["p"] = r["p"] - n_base - k0 if r["p"] else 0
+        r["fc"] = r["fc"] - n_base - k0 if r["nc"] else 1
+    add_tree(chain, 0, "clean")
+    clean_nodes = list(range(len(forest) - len(chain) + 1, len(forest) + 1))
+    mut = json.loads(json.dumps(chain))
+    mut[1]["aa"] = 999999
+    add_tree(mut, 1, "argf")
+    mut = json.loads(json.dumps(chain))
+    mut[2]["res"] = 999999
+    add_tree(mut, 2, "rep")
+    expect = [e for e in expect if e[1] != "clean"]
     _, nb = persist_validate(wd, forest, tag="neg", workers=1)
     neg = sum(1 for node, flag in expect if nb.get(node) is not None and not nb[node][flag])
-    if neg != 5:
-        common.machinery_failure(PROP, f"Trace_Persist accepted a corrupted recording ({neg} of 5 controls rejected)")
-    n_paths = len(seqs) + len(rnd)
+    if neg != 7:
+        common.machinery_failure(PROP, f"Trace_Persist accepted a corrupted recording ({neg} of 7 controls rejected)")
+    if any(node in nb for node in clean_nodes):
+        common.machinery_failure(PROP, "Trace_Persist rejects an untouched layout-sweep chain")
+    n_paths = len(seqs) + len(rnd) + len(sweep_lines)
     logical = {tuple(k for k in p if k[0] != 0) for p in nodes}
     n_full = sum(1 for q in list(seqs) + list(rnd) if tuple(q) in logical)
     kinds_seen = sorted({t[3] for v in nodes.values() for t in v[3]})
@@ -1421,6 +1898,14 @@ def persist_part(tier, wd, viol, cov):
         "persist_recorded_events": len(recs), "persist_events_rejected": len(bad),
         "persist_operator_kinds_seen": kinds_seen, "persist_alphabet": [a for a, _, _ in PERSIST_ACTS],
         "persist_negative_controls_rejected": neg, "persist_calls_whose_result_is_an_exception": n_exc,
+        "sweep_paths": len(SWEEP_PATHS), "sweep_cases_path_side_class": len(chains),
+        "sweep_layouts": {c: k for c, k in SWEEP_CLASSES.items()},
+        "sweep_path_side_layout_combinations": len({(k[0], k[1], k[2], e[0]) for k, evs in chains for e in evs[1:]}),
+        "sweep_calls_recorded": sum(len(evs) - 1 for _, evs in chains), "sweep_sequence_length": depth,
+        "sweep_sequences_from_tlc": len(sweep_lines),
+        "sweep_calls_whose_result_is_an_exception": sorted({f"{k[0]}/{k[1]}/{k[2]}:{e[1]}" for k, evs in chains for e in evs[1:]
+                                                            if e[1].startswith("exc:")}),
+        "sweep_roles": {r: sum(1 for _, x in SWEEP_PATHS if x == r) for r in SWEEP_ROLES},
     })
     samples = [_path_str(p) for p in sorted(nodes, key=lambda q: (-len(q), q))[:: max(1, len(nodes) // 3)][:3]]
     return mcr, tres, n_paths, samples
@@ -1517,6 +2002,37 @@ def replay(path):
             for i in moved:
                 flags.append(f"leaves of operator #{i + 1} ({trip2[i][4]}) changed while it was densified")
             print(f"{PERSIST_ACTS[ai - 1][0]}(#{x}) -> {res[:24]}   {'; '.join(flags)}")
+            bad = bad or bool(flags)
+            ow, trip = ow2, trip2
+        if bad:
+            print(f"VIOLATION property={PROP} replay={path}")
+            return 1
+        return 0
+    if r.get("kind") == "sweep":
+        from .. import fastimport
+        fastimport.install()
+        from .. import build  # noqa: F401
+        c = SweepCase(r["path"], r["side"], r["cls"])
+        ow, trip = c.owned(), c.ops()
+        names = c.owned_names()
+        bad = False
+        first = None
+        for kind in (r["seq"] or c.kinds):
+            res, ab, aa, note = c.call(kind)
+            ow2, trip2 = c.owned(), c.ops()
+            flags = []
+            if ab != aa:
+                flags.append("the argument was modified")
+            if ow2 != ow:
+                flags.append("caller-owned arrays changed: " + str([n for n, a, b in zip(names, ow, ow2) if a != b]))
+            if [t[:3] for t in trip2] != [t[:3] for t in trip]:
+                flags.append("the swept operator changed")
+            first = first or (kind, res)
+            if res != first[1]:
+                flags.append(f"result differs from the one with layout {first[0]} ({first[1]})")
+            arr = c.lay[kind][0]
+            print(f"{r['path']} side={r['side']} {r['cls']}:{kind:5s} shape={arr.shape} strides={arr.strides} "
+                  f"writeable={arr.flags.writeable} -> {res} {note}  {'; '.join(flags)}")
             bad = bad or bool(flags)
             ow, trip = ow2, trip2
         if bad:
